@@ -9,6 +9,7 @@ package producer
 
 // ---- raw socket: one write of msg ++ "\n" per message --------------------------------------------------
 //@ func (*RawSocket).inputMsg
+//@   names rs topic mCh ec msg err ok i newConnection err
 //@   opt replaytest call.assert producer_rawsocket_bytes.go
 //@   requires rs.logger != nil && ec != nil
 //@   opt nonterminating
@@ -25,6 +26,7 @@ package producer
 
 // ---- kafka (sarama): exactly one hand-over to the producer's input per message ------------------------
 //@ func (*KafkaSarama).inputMsg
+//@   names k topic mCh ec msg ok sent err
 //@   opt ownership what is handed to the asynchronous producer must not be memory this loop overwrites for the next message
 //@   opt replaytest step producer_sarama_once.go
 //@   requires k.logger != nil && ec != nil && k.producer != nil
@@ -42,6 +44,7 @@ package producer
 
 // ---- NSQ and NATS: one Publish(topic, msg) per message ---------------------------------------------------
 //@ func (*NSQ).inputMsg
+//@   names n topic mCh ec msg err ok
 //@   requires n.logger != nil && ec != nil && n.producer != nil
 //@   opt nonterminating
 //@   opt countcalls Publish
@@ -52,6 +55,7 @@ package producer
 //@     step [once] calls_Publish == iter(calls_Publish) + 1
 
 //@ func (*NATS).inputMsg
+//@   names n topic mCh ec msg err ok
 //@   requires n.logger != nil && ec != nil && n.connection != nil
 //@   opt nonterminating
 //@   opt countcalls Publish
